@@ -25,6 +25,57 @@ def int_bits(t):
     t = (t or "").replace("const ", "").replace("volatile ", "").strip()
     return INT_BITS.get(t)
 
+def max_value(n):
+    """a syntactic upper bound of a non-negative integer expression, or None: literals, sizeof, x & c, x % c, x >> k
+    (from the operand's width), comparisons / logical operators, ?: of bounded arms.  A narrowing conversion whose
+    operand is bounded below 2^(target width) cannot truncate and is not listed."""
+    n = cast.strip(n) if n.get("kind") in ("ParenExpr", "ConstantExpr") else n
+    k = n.get("kind")
+    if k in ("ParenExpr", "ConstantExpr") and n.get("inner"):
+        return max_value(n["inner"][-1])
+    if k in ("ImplicitCastExpr", "CStyleCastExpr") and n.get("inner"):
+        inner = max_value(n["inner"][-1])
+        t = n.get("type", {})
+        b = int_bits(t.get("desugaredQualType") or t.get("qualType"))
+        if inner is not None and (b is None or inner < (1 << b)):
+            return inner
+        return (1 << b) - 1 if b else None
+    if k in ("IntegerLiteral", "CharacterLiteral"):
+        return int(n["value"])
+    if k == "CXXBoolLiteralExpr":
+        return 1
+    if k == "UnaryExprOrTypeTraitExpr":
+        return 1 << 16                     # sizeof / alignof of a library type
+    if k == "BinaryOperator":
+        op = n.get("opcode")
+        a, b = n["inner"]
+        if op in ("<", "<=", ">", ">=", "==", "!=", "&&", "||"):
+            return 1
+        ma, mb = max_value(a), max_value(b)
+        if op == "&":
+            c = [x for x in (ma, mb) if x is not None]
+            return min(c) if c else None
+        if op == "%" and mb is not None and mb > 0:
+            return mb - 1
+        if op == ">>" and cast.strip(b).get("kind") == "IntegerLiteral":
+            t = a.get("type", {})
+            w = int_bits(t.get("desugaredQualType") or t.get("qualType"))
+            sh = int(cast.strip(b)["value"])
+            if ma is not None:
+                return ma >> sh
+            return (1 << (w - sh)) - 1 if w and sh < w else None
+        if op == "/" and ma is not None and mb is not None:
+            return ma
+        return None
+    if k == "UnaryOperator" and n.get("opcode") == "!":
+        return 1
+    if k == "ConditionalOperator":
+        x, y = max_value(n["inner"][1]), max_value(n["inner"][2])
+        return max(x, y) if x is not None and y is not None else None
+    t = n.get("type", {})
+    b = int_bits(t.get("desugaredQualType") or t.get("qualType"))
+    return (1 << b) - 1 if b and b < 64 else None
+
 def scan(cfg):
     globals_, assigns, allocsites, libc, notes = {}, set(), {}, set(), []
     fields, narrowing = {}, {}
@@ -91,7 +142,9 @@ def scan(cfg):
                 ti = inner.get("type", {})
                 frm = int_bits(ti.get("desugaredQualType") or ti.get("qualType"))
                 lit = cast.strip(inner).get("kind") in ("IntegerLiteral", "CharacterLiteral")
-                if to and frm and to < frm and not lit:
+                mv = max_value(inner)
+                fits = bool(to) and mv is not None and mv < (1 << (to - 1 if (t.get("desugaredQualType") or t.get("qualType") or "").replace("const ", "").strip() in ("int", "short", "char", "long", "int8_t", "int16_t", "int32_t", "signed char") else to))
+                if to and frm and to < frm and not lit and not fits:
                     infile = cur_file[0] or ""
                     if infile.startswith(src_prefix) and infile.endswith(".c"):
                         key = (rel, ctx, frm, to)
